@@ -9,4 +9,6 @@ rsync -a --exclude .git /repo/ "$scratch/repo/"
 (cd "$scratch/repo" && patch -p1 -s < $seed/patch.diff) || { echo "patch does not apply"; exit 2; }
 cd /verif
 VERIF_REPO="$scratch/repo" GOVC_EVIDENCE_OUT="$scratch/ev.json" GOVC_REPLAY_DIR="$scratch/replays" bin/govc check "$id" --tier quick 2>&1 | cut -c1-220
-echo "check exit=${PIPESTATUS[0]}"
+rc=${PIPESTATUS[0]}
+if [ -n "$SEED_SHOW_REPLAY" ]; then for f in "$scratch"/replays/*.json; do [ -f "$f" ] && python3 -c "import json,sys;r=json.load(open(sys.argv[1]));print(sys.argv[1].split('/')[-1],r.get('reproduced'),(r.get('replay_output') or '')[:1500])" "$f"; done; fi
+echo "check exit=$rc"
